@@ -160,29 +160,24 @@ def run(chk):
     G = 4 if quick else 5
     seqlen = G + 3
     locs = E.enum_locs(G, 2)
-    evs = [["cert", G, 2, [[b, st] for (b, st) in locs]]]
-    nsh = 64
-    parts = pmap(_pair_events, [(locs[i::nsh], locs, seqlen, "some" if quick else "all", chk.seed * 977 + i)
-                                for i in range(nsh)])
-    pairs = [e for p in parts for e in p]
-    evs += pairs
+    kw = dict(shard=1200, label="algebra")
+    chk.validate("C02Trace", [["cert", G, 2, [[b, st] for (b, st) in locs]]], **kw)
+    nsh = 64 if quick else 1024
+    npairs = chk.leg("C02Trace", _pair_events, [(locs[i::nsh], locs, seqlen, "some" if quick else "all",
+                                                  chk.seed * 977 + i) for i in range(nsh)], **kw)[0]
     # three-block and unstranded operands, larger coordinates (random)
     from bcverif.props.c01 import _random_locs
 
     l3 = rnd.sample(E.enum_locs(G + 1, 3), 120 if quick else 600)
-    parts = pmap(_pair_events, [(l3[i::16], l3[:60 if quick else 300], G + 4, "some", chk.seed * 31 + i)
-                                for i in range(16)])
-    evs += [e for p in parts for e in p]
     big = _random_locs(rnd, 80 if quick else 500, 1000, 6)
     bigu = [(b, rnd.choice("+-.")) for (b, _s) in big]
-    parts = pmap(_pair_events, [(bigu[i::16], bigu[:40 if quick else 200], 1003, "some", chk.seed * 53 + i)
-                                for i in range(16)])
-    evs += [e for p in parts for e in p]
+    chk.leg("C02Trace", _pair_events,
+            [(l3[i::16], l3[:60 if quick else 300], G + 4, "some", chk.seed * 31 + i) for i in range(16)] +
+            [(bigu[i::16], bigu[:40 if quick else 200], 1003, "some", chk.seed * 53 + i) for i in range(16)], batch=16, **kw)
     ul = E.enum_locs(G + 1, 3) + [(b, ".") for (b, s) in E.enum_locs(G, 2) if s == "+"]
     if quick:
         ul = rnd.sample(ul, 2500)
-    parts = pmap(_unary_events, [(ul[i::32], G + 4, chk.seed * 71 + i) for i in range(32)])
-    evs += [e for p in parts for e in p]
+    chk.leg("C02Trace", _unary_events, [(ul[i::64], G + 4, chk.seed * 71 + i) for i in range(64)], batch=32, **kw)
     # direction A: behaviours of the calculator machine chosen by TLC, performed on real objects
     r = chk.mc("LocSim", "LocSim.cfg", workers=1, simulate="num=%d" % (1500 if quick else 20000),
                extra=["-depth", "5", "-seed", str(chk.seed + 11)],
@@ -191,16 +186,16 @@ def run(chk):
     if len(chains) < 200:
         raise MachineryError("TLC emitted only %d calculator behaviours" % len(chains))
     parts = pmap(_chain_events, [(chains[i::32], i) for i in range(32)])
-    evs += [e for p in parts for e in p[0]]
     chk.extra["calculator_behaviours_replayed"] = len(chains)
     chk.extra["algo_fidelity"] = {"real_steps": sum(p[2] for p in parts), "identical_to_transcribed_algorithm":
                                   sum(p[3] for p in parts), "divergent_examples": [d for p in parts for d in p[4]][:5]}
+    chk.validate("C02Trace", [e for p in parts for e in p[0]], **kw)
+    del parts
     # leg S: the calls the repository's own tests make, judged with the same clauses
-    evs += suite_events(chk, "C02Trace")
-    chk.validate("C02Trace", evs, shard=1200, label="algebra")
+    chk.validate("C02Trace", suite_events(chk, "C02Trace"), **kw)
     chk.exhaustive = True
-    chk.nontrivial = len({(str(e[1]), str(e[2])) for e in pairs}) + len(ul)
-    chk.extra["constants"] = {"G": G, "K": 2, "locations": len(locs), "ordered_pairs": len(pairs),
+    chk.nontrivial = npairs + len(ul)
+    chk.extra["constants"] = {"G": G, "K": 2, "locations": len(locs), "ordered_pairs": npairs,
                               "unary_receivers": len(ul), "flag_vectors_per_pair": "4 of 8 (rotating)" if quick else 8}
     chk.trusted += ["TLC", "Loc.tla Sem layer (position sets)", "harness/bcverif/encode.py projections"]
     return chk.finish("all ordered pairs of Locs(G,2) (certified complete by TLC) x overlap/intersection/minus/"
